@@ -1301,7 +1301,11 @@ class Prover:
             if n == "into_iter":
                 return self.iter_len(a[0], bb, d + 1) if _is_iter_term(a[0]) else self.len_range(a[0], bb, d + 1)
             if n in ("iter", "iter_mut") and "slice" in full:
-                return self.len_range(a[0], bb, d + 1)
+                base = a[0]
+                if strip(base)[0] == "mutref" and len(it) > 3:
+                    # `x.iter_mut()`: as many items as the borrowed slice had when it was borrowed
+                    base = self.se.call_old.get((it[3][:2], 0), base)
+                return self.len_range(base, bb, d + 1)
             if n == "chars":
                 l = self.len_range(a[0], bb, d + 1) if False else self.rng(("len", a[0]), bb)
                 return (0, l[1])
